@@ -8,6 +8,12 @@ Models: `CL.Sel.checkPaths` (`commands/check.py: check_command`, `_handle_file_p
 `Node.dir rn ch` and the same oracles `O` - in particular the same `decode` (`_read_file`) and
 `analyze`. The working directory is the root of the tree (`cwd = []`), as the property demands.
 
+"The same text decoding" is therefore BY CONSTRUCTION in this file: both models apply the one
+field `O.decode`.  That the code's two readers - `Scanner._read_file` (scan) and `check_file`'s
+reading (check) - are the same function of the bytes is not proved here but in
+`Gaps.scan_check_same_text` (with `Gaps.read_file_total`: UTF-8, else Latin-1, universal
+newlines, for every byte string) and checked by the correspondence run on non-UTF-8 files.
+
 Ways of reaching a file with root-relative path `p`:
 * `CheckArg.relFile p` - the relative file path;
 * `CheckArg.relDir d` / `CheckArg.absDir d` for any directory `d` of the tree above the file
